@@ -13,7 +13,7 @@ PROPERTY = 'C08'
 
 
 def cfg_for(lf: int, tier: str) -> dict:
-    cap = {2: 6, 3: 7, 4: 8}.get(lf, 2 * lf)
+    cap = {2: 6, 3: 6, 4: 7}.get(lf, 2 * lf)      # (7 token classes: one more token multiplies the space by ~7)
     if tier == 'quick':
         cap = {2: 5, 3: 5}.get(lf, cap)
     return {
